@@ -120,6 +120,7 @@ theorem envStep1_wk (combine) (s : Sys) (w : Wid) : (envStep1With combine s w).w
       repeat' split
       all_goals rfl
     | resultResp req r => rfl
+    | exited p => rfl
 
 theorem ResMono.of_upd {s s' : Sys} {i : Wid} {x : WorkerSt} (h : s'.wk = upd s.wk i x) (hk : ResKeep (s.wk i) x) :
     ResMono s s' := by
@@ -213,7 +214,7 @@ theorem ResMono.execStep {s : Sys} (h : SInv s) (i : Wid) (fuel : Nat) (ordQ : L
     · exact ResMono.of_upd rfl hK1
     · rename_i x hx
       split
-      · exact ResMono.of_upd rfl (hK1.trans (ResKeep.finish x ordQ hcur).1)
+      · exact ResMono.of_upd (by simp) (hK1.trans (ResKeep.finish x ordQ hcur).1)
       · generalize slice s.prog s.now cur fuel x = r
         obtain ⟨x', out⟩ := r
         dsimp only
@@ -230,7 +231,7 @@ theorem ResMono.execStep {s : Sys} (h : SInv s) (i : Wid) (fuel : Nat) (ordQ : L
         | awaitInit ts => exact ResMono.of_upd rfl (hK2 _ _ _)
         | blocked => exact ResMono.of_upd rfl (hK2 _ _ _)
         | failed =>
-          refine ResMono.of_upd rfl ?_
+          refine ResMono.of_upd ((noteExit_wk _ _ _ _).trans rfl) ?_
           -- results of others are kept through the update of `cur` and the notifications
           intro t r hr
           unfold WorkerSt.finish
@@ -244,7 +245,7 @@ theorem ResMono.execStep {s : Sys} (h : SInv s) (i : Wid) (fuel : Nat) (ordQ : L
             rw [hx0] at hy; cases hy; rw [hr0] at hr'; cases hr'
           exact h3 t r hr
         | done =>
-          refine ResMono.of_upd rfl ?_
+          refine ResMono.of_upd ((noteExit_wk _ _ _ _).trans rfl) ?_
           intro t r hr
           unfold WorkerSt.finish
           have h2 := ResKeep.foldl (fun acc a => acc.notifyResult a cur x'.finalRes) (fun w' a => ResKeep.notifyResult w' a cur _)
@@ -362,11 +363,12 @@ theorem envStep1_evts (combine) (s : Sys) (w : Wid) : ∀ w' e, e ∈ (envStep1W
       repeat' split
       all_goals exact hsub e
     | resultResp req r => exact hsub e
+    | exited p => exact hsub e
 
 theorem execStep_new_evts (s : Sys) (i : Wid) (fuel : Nat) (ordQ : List Pid) :
     ∀ w e, e ∈ (QM.Sys.execStep s i fuel ordQ).evtQ w → e ∈ s.evtQ w ∨ (∀ a rs, e ≠ .procResults a rs) := by
   intro w e
-  simp only [QM.Sys.execStep]
+  simp only [QM.Sys.execStep, Sys.noteExit]
   repeat' split
   all_goals simp only [Sys.setWk, Sys.pushEvt]
   all_goals first
@@ -515,6 +517,7 @@ theorem envStep1_notified (combine) (s : Sys) (w : Wid) : (envStep1With combine 
       repeat' split
       all_goals rfl
     | resultResp req r => rfl
+    | exited p => rfl
 
 /-- all NotifySpawn commands applied so far found their caller parked and re-queued it -/
 def AllRequeued (s : Sys) : Prop := ∀ x ∈ s.spawnNotified, x.2.2 = true
